@@ -3,7 +3,8 @@
    the half-open sign rule, dependence on the rounded input only, the scratch array for every n (incl. n > N). *)
 From Coq Require Import ZArith List Lia.
 From TV Require Import Base.Int32 Ring.NegaRing Model.Numeric Model.Lwe Model.Poly Model.Tlwe Model.Tgsw Model.Bootstrap
-  Proofs.Numeric Proofs.Tlwe Proofs.Tgsw Proofs.BlindRotate Proofs.Bootstrap Proofs.BootPhase Proofs.Drift.
+  Proofs.Numeric Proofs.Tlwe Proofs.Tgsw Proofs.BlindRotate Proofs.Bootstrap Proofs.BootPhase Proofs.Drift Proofs.Digits Proofs.KeySwitch.
+From TV Require Import Base.Sums Model.KeySwitch.
 Import ListNotations.
 Local Open Scope Z_scope.
 
@@ -47,7 +48,7 @@ Print Assumptions C04_zero_exponents_skip.
 Theorem C04_bre_phase : forall N, (0 < N)%nat -> forall key k, wf_tkey N k key -> forall l B bk ss beta,
   good_key N key k l B bk ss beta -> 0 <= beta ->
   forall (bara : list nat) (barb : nat) v, length bara = length bk -> Forall (fun a => (a < 2 * N)%nat) bara -> (barb < 2 * N)%nat -> lenN N v ->
-  exists smp e0, blind_rotate_extract l B k v bk (Z.of_nat barb) (map Z.of_nat bara) = Some smp /\
+  exists smp e0, blind_rotate_extract l B k v bk (Z.of_nat barb) (map Z.of_nat bara) = Some smp /\ length (fst smp) = (k * N)%nat /\
     eqm32 (lwe_phase (tlwe_extract_key key) smp) (Shn N (expo bara ss + (2 * N - barb)) (ofl v) 0%nat + e0) /\
     Z.abs e0 <= steps bara * beta.
 Proof. exact bre_phase. Qed.
@@ -63,11 +64,27 @@ Print Assumptions C04_rotation_coefficient0.
    exponent p = round(2N b) - sum_i round(2N a_i) s_i mod 2N lies in [0,N), -mu otherwise, plus an error of at most n * beta *)
 Theorem C04_bootstrap_woKS_phase : forall N, (0 < N)%nat -> inDomain (2 * Z.of_nat N) -> forall key k, wf_tkey N k key ->
   forall l B bk ss beta mu x, good_key N key k l B bk ss beta -> 0 <= beta -> length (fst x) = length bk ->
-  exists smp e0, bootstrap_woKS true l B k N bk mu x = Some smp /\
+  exists smp e0, bootstrap_woKS true l B k N bk mu x = Some smp /\ length (fst smp) = (k * N)%nat /\
     eqm32 (lwe_phase (tlwe_extract_key key) smp) ((if rot_exponent N ss x <? Z.of_nat N then mu else w32 (- mu)) + e0) /\
     Z.abs e0 <= Z.of_nat (length bk) * beta.
 Proof. exact bootstrap_woKS_phase. Qed.
 Print Assumptions C04_bootstrap_woKS_phase.
+
+(* with the final key switch: the same message and error, plus the rounding of the extracted mask to t*basebit bits (C08) and the
+   noise of the key-switching rows actually used *)
+Theorem C04_bootstrap_phase : forall N, (0 < N)%nat -> inDomain (2 * Z.of_nat N) -> forall key k, wf_tkey N k key ->
+  forall l B bk ss beta mu x (ksraw : list sample) (t : nat) (b : Z) (lkey : list Z) (nout : nat) (e : nat -> nat -> Z -> Z),
+  good_key N key k l B bk ss beta -> 0 <= beta -> length (fst x) = length bk -> valid_ks t b ->
+  (forall i j h, (i < k * N)%nat -> (j < t)%nat -> 1 <= h < pow2 b ->
+     exists row, ks_get ksraw (Z.of_nat t) (pow2 b) i j h = Some row /\ length (fst row) = nout /\
+                 eqm32 (lwe_phase lkey row) (h * nth i (tlwe_extract_key key) 0 * pow2 (shp 32 b j) + e i j h)) ->
+  exists (res u : sample) e0, bootstrap l B k N bk ksraw t b nout mu x = Some res /\ length (fst res) = nout /\ Z.abs e0 <= Z.of_nat (length bk) * beta /\
+    eqm32 (lwe_phase lkey res)
+          ((if rot_exponent N ss x <? Z.of_nat N then mu else w32 (- mu)) + e0
+           + zsum (k * N) (fun i => nth i (tlwe_extract_key key) 0 * (nth i (fst u) 0 - round_tb (Z.of_nat t) b (nth i (fst u) 0)))
+           - zsum (k * N) (fun i => zsum t (ee b e i (aibar (Z.of_nat t) b (nth i (fst u) 0))))).
+Proof. exact bootstrap_phase. Qed.
+Print Assumptions C04_bootstrap_phase.
 
 (* modulus-switch drift: p scaled back to the torus is the input phase plus the n+1 rounding errors, at most (1+|s|_1)/(4N) in all *)
 Theorem C04_modswitch_drift : forall (N : nat) (S : Z) s x, (0 < N)%nat -> inDomain (2 * Z.of_nat N) -> 2 * Z.of_nat N * S = p32 ->
